@@ -83,11 +83,14 @@ HIST = " In a quarter of the runs the schema is reached through a longer edit hi
 
 # sentences added to the level text as workloads were widened
 EXTRA = {
-    "C15": " Now and then the caller re-keys a type's Rels map (a relationship is what its Rel value says, whatever key it sits under).",
-    "C17": " In half of the runs a third twin is a Wrapper made from a struct value (Wrap copies it); types may have relationships only.",
-    "C08": " Filter objects are written with their members in any order, now and then with white space." + HIST,
-    "C01": HIST + " Now and then the schema's soft type is edited (one attribute removed, one added) while the sender's resource is alive and untouched.",
-    "C02": HIST, "C05": HIST, "C03": HIST + " Documents may carry top-level links of their own.", "C11": HIST + " Documents may carry top-level links of their own.",
+    "C16": " In part of the builds the names are first held by other relationships, Rels() is looked at, they are removed and the real ones added.",
+    "C15": " Now and then 8..24 types are added at once; the read-only clause includes the nil-ness of field maps. Now and then the caller re-keys a type's Rels map (a relationship is what its Rel value says, whatever key it sits under).",
+    "C17": " At the end GetType().New() of every twin and New() of a type derived from the used soft type must be blank resources of their type. In half of the runs a third twin is a Wrapper made from a struct value (Wrap copies it); types may have relationships only.",
+    "C08": " Names that need escaping in a quarter of the runs; in a fifth of the runs the schema is edited and the same raw URL parsed again. Filter objects are written with their members in any order, now and then with white space." + HIST,
+    "C01": HIST + " A refusal of a valid schema, URL or document is a violation. A third of the wrapped structs are filled through the caller's pointer after Wrap; some names look like json tags with options. Now and then the schema's soft type is edited (one attribute removed, one added) while the sender's resource is alive and untouched.",
+    "C02": HIST + " A refusal of a valid schema, URL or document is a violation.", "C05": HIST,
+    "C03": HIST + " Documents may carry top-level links of their own; in a third of the runs the same resources are marshaled again under another prefix.",
+    "C11": HIST + " Documents may carry top-level links of their own; names that need escaping in a quarter of the runs.",
     "C12": HIST + " MarshalDocument is now and then given a page of 100..500 resources (rarely in the quick tier, one run in four in the thorough tier). A run that does not return within 120 s is reported as a violation (all checks).",
 }
 
@@ -143,7 +146,7 @@ def main():
         "checks": checks,
         "not_applicable": na,
         "notes": "All checks: exit 0 held / 1 VIOLATION line / 2 harness or build trouble. VERIF_SEED selects the batch; VERIF_REPO overrides /repo. "
-                 "Open known findings (KNOWN-FINDING lines, exit 0): see known_findings.json. Sensitivity: seeded/ (183 changes from independent sub-agents: 177 detected by the quick tier, 1 more by the thorough tier, 5 not, see DESIGN.md section 9), "
+                 "Open known findings (KNOWN-FINDING lines, exit 0): see known_findings.json. Sensitivity: seeded/ (211 changes from independent sub-agents: 205 detected by a quick check, 1 more by the thorough tier, 5 not, see DESIGN.md section 9), "
                  "benign/ (24 behaviour-preserving refactors, all silent), tools/revert_fixes.sh. fix: commits in /repo: " + "; ".join(fixes),
     }
     with open(os.path.join(VERIF, "MANIFEST.json"), "w") as f:
